@@ -3,10 +3,11 @@
   read.go (`updateLine`, `markRemoved`, `addLine`, `Cleanup`) and of rule.go (`SortBlocks`, `removeDups`) does to it.
 
   A `VLine` is a live line with its FULL tokens (the block's verb in front for a line inside a block) and its
-  comments; `view` lists them in file order.  Tree well-formedness `TreeWF`: line ids pairwise different and below
+  end-of-line comments; `view` lists them in file order.  Tree well-formedness `TreeWF`: line ids pairwise different and below
   the fresh-id counter, every block token a single verb, the `inBlock` flags right, no suffix comment on a block.
 -/
 import ModVerif.Proofs.EditRefineWork
+import ModVerif.Proofs.EditModel
 set_option linter.unusedSimpArgs false
 namespace ModVerif.Modfile.Edit
 open ModVerif ModVerif.Modfile
@@ -14,7 +15,7 @@ open ModVerif ModVerif.Modfile
 structure VLine where
   id : Nat
   toks : List Bytes
-  coms : Comments
+  suffix : List Comment      -- the end-of-line comments (they carry the `// indirect` marker)
   deriving DecidableEq, Repr
 
 /-- the lines of a statement, each with the verb tokens of its block (`[]` at top level) -/
@@ -26,7 +27,7 @@ def locStmt : Expr → List (List Bytes × Line)
 def loc (stmts : List Expr) : List (List Bytes × Line) := stmts.flatMap locStmt
 
 def liveLoc (p : List Bytes × Line) : Bool := !p.2.token.isEmpty
-def mkV (p : List Bytes × Line) : VLine := ⟨p.2.id, p.1 ++ p.2.token, p.2.comments⟩
+def mkV (p : List Bytes × Line) : VLine := ⟨p.2.id, p.1 ++ p.2.token, p.2.comments.suffix⟩
 
 /-- the live lines of the tree with their full tokens -/
 def view (stmts : List Expr) : List VLine := ((loc stmts).filter liveLoc).map mkV
@@ -57,6 +58,7 @@ theorem allLines_eq_loc (fs : FileSyntax) : fs.allLines = (loc fs.stmts).map (·
 structure TreeWF (stmts : List Expr) (next : Nat) : Prop where
   nodup : (treeIds stmts).Nodup
   lt : ∀ i ∈ treeIds stmts, i < next
+  pos : ∀ i ∈ treeIds stmts, i ≠ 0
   blockTok : ∀ b, Expr.lineBlock b ∈ stmts → ∃ v, b.token = [v]
   flagTop : ∀ l, Expr.line l ∈ stmts → l.inBlock = false
   flagIn : ∀ b, Expr.lineBlock b ∈ stmts → ∀ l ∈ b.lines, l.inBlock = true
@@ -243,7 +245,7 @@ theorem TreeWF.mapLines {stmts : List Expr} {next : Nat} (h : TreeWF stmts next)
     (hid : ∀ l, (f l).id = l.id) (hfl : ∀ l, (f l).inBlock = l.inBlock) : TreeWF (stmts.map (mapLinesStmt f)) next := by
   have hids : treeIds (stmts.map (mapLinesStmt f)) = treeIds stmts := by
     unfold treeIds; rw [loc_mapLines, List.map_map]; apply List.map_congr_left; intro p _; exact hid _
-  refine ⟨by rw [hids]; exact h.nodup, by rw [hids]; exact h.lt, ?_, ?_, ?_, ?_⟩
+  refine ⟨by rw [hids]; exact h.nodup, by rw [hids]; exact h.lt, by rw [hids]; exact h.pos, ?_, ?_, ?_, ?_⟩
   · intro b hb
     rcases mem_mapLines_block hb with ⟨b0, hb0, rfl⟩
     exact h.blockTok b0 hb0
@@ -413,7 +415,7 @@ theorem insertAfterId_spec (h : Nat) (new : Line) (ls r : List Line) (hr : inser
         rcases ih r' hi with ⟨l1, l2, e1, e2⟩
         exact ⟨l :: l1, l2, by rw [e1]; rfl, by rw [e2]; rfl⟩
 
-def vnew (new : Nat) (tokens : List Bytes) : VLine := ⟨new, tokens, {}⟩
+def vnew (new : Nat) (tokens : List Bytes) : VLine := ⟨new, tokens, []⟩
 
 theorem view_newLine (new : Nat) (tokens : List Bytes) (h : tokens ≠ []) :
     view [Expr.line (mkLine new tokens false)] = [vnew new tokens] := by
@@ -425,7 +427,7 @@ theorem treeIds_newLine (new : Nat) (tokens : List Bytes) : treeIds [Expr.line (
   simp [treeIds, loc, locStmt, mkLine]
 
 theorem view_block (b : LineBlock) :
-    view [Expr.lineBlock b] = (b.lines.filter (fun l => !l.token.isEmpty)).map fun l => ⟨l.id, b.token ++ l.token, l.comments⟩ := by
+    view [Expr.lineBlock b] = (b.lines.filter (fun l => !l.token.isEmpty)).map fun l => ⟨l.id, b.token ++ l.token, l.comments.suffix⟩ := by
   simp only [view, loc, List.flatMap_cons, List.flatMap_nil, List.append_nil, locStmt]
   rw [List.filter_map, List.map_map]
   rfl
@@ -435,6 +437,33 @@ theorem treeIds_block (b : LineBlock) : treeIds [Expr.lineBlock b] = b.lines.map
 
 theorem headIs_cons {a : Bytes} {as : List Bytes} {v : Bytes} (h : headIs (a :: as) v = true) : a = v := by
   simpa [headIs] using h
+
+/-- a block of verb `verb` with the new line `verb t rest…` inserted somewhere -/
+theorem block_insert_spec (b : LineBlock) (new : Nat) (verb t : Bytes) (rest : List Bytes) (l1 l2 : List Line)
+    (hb : b.lines = l1 ++ l2) (htok : b.token = [verb]) (hs : ShapeWF [Expr.lineBlock b]) :
+    (view [Expr.lineBlock { b with lines := l1 ++ mkLine new (t :: rest) true :: l2 }]).Perm
+        (view [Expr.lineBlock b] ++ [vnew new (verb :: t :: rest)]) ∧
+    (treeIds [Expr.lineBlock { b with lines := l1 ++ mkLine new (t :: rest) true :: l2 }]).Perm
+        (treeIds [Expr.lineBlock b] ++ [new]) ∧
+    ShapeWF [Expr.lineBlock { b with lines := l1 ++ mkLine new (t :: rest) true :: l2 }] := by
+  refine ⟨?_, ?_, ?_⟩
+  · rw [view_block, view_block, hb]
+    simp only [List.filter_append, List.map_append, List.filter_cons, htok, mkLine, List.isEmpty_cons, Bool.not_false,
+      if_true, List.map_cons, List.append_assoc, List.singleton_append, vnew]
+    exact List.Perm.append_left _ (List.perm_append_comm (l₁ := [_]))
+  · rw [treeIds_block, treeIds_block, hb]
+    simp only [List.map_append, List.map_cons, mkLine, List.append_assoc]
+    exact List.Perm.append_left _ (List.perm_append_comm (l₁ := [new]))
+  · have hb0 : Expr.lineBlock b ∈ [Expr.lineBlock b] := List.mem_singleton.2 rfl
+    refine ⟨fun b' hb' => ?_, fun l' hl' => by simp at hl', fun b' hb' l' hl' => ?_, fun b' hb' => ?_⟩
+    · simp only [List.mem_singleton, Expr.lineBlock.injEq] at hb'; subst hb'; exact hs.blockTok b hb0
+    · simp only [List.mem_singleton, Expr.lineBlock.injEq] at hb'; subst hb'
+      simp only [List.mem_append, List.mem_cons] at hl'
+      rcases hl' with h | rfl | h
+      · exact hs.flagIn b hb0 l' (by rw [hb]; exact List.mem_append_left _ h)
+      · rfl
+      · exact hs.flagIn b hb0 l' (by rw [hb]; exact List.mem_append_right _ h)
+    · simp only [List.mem_singleton, Expr.lineBlock.injEq] at hb'; subst hb'; exact hs.noBlockSuffix b hb0
 
 /-- the hinted walk of `addLine`: the new line appears with exactly the requested full tokens, nothing else changes -/
 theorem addLineWalk_spec (hint : Hint) (new : Nat) (verb t : Bytes) (rest : List Bytes) :
@@ -469,38 +498,416 @@ theorem addLineWalk_spec (hint : Hint) (new : Nat) (verb t : Bytes) (rest : List
         · rw [view_cons x r', view_cons x xs, List.append_assoc]; exact List.Perm.append_left _ p1
         · rw [treeIds_cons x r', treeIds_cons x xs, List.append_assoc]; exact List.Perm.append_left _ p2
     unfold addLineWalk at h
-    simp only [List.head?_cons, Option.getD_some] at h
+    dsimp only [List.head?_cons, Option.getD_some] at h
     cases x with
     | line l =>
       simp only at h
-      split at h
-      · split at h
-        · simp only [Option.some.injEq] at h; subst h; exact hafter
+      by_cases hh : (hint == Hint.line l.id || hint == Hint.stmt i) = true
+      · rw [if_pos hh] at h
+        by_cases hc : (l.token.isEmpty || !headIs l.token verb) = true
+        · rw [if_pos hc] at h
+          simp only [Option.some.injEq] at h; subst h; exact hafter
         · -- convert the line into a block
-          rename_i hcond
-          simp only [Bool.or_eq_true, Bool.not_eq_true', not_or, Bool.not_eq_true, Bool.not_eq_false] at hcond
+          rw [if_neg hc] at h
+          simp only [Bool.or_eq_true, Bool.not_eq_true', not_or, Bool.not_eq_true, Bool.not_eq_false] at hc
           simp only [Option.some.injEq] at h; subst h
-          have hlive : l.token ≠ [] := by intro e; simp [e] at hcond
+          have hlive : l.token ≠ [] := by intro e; simp [e] at hc
           have hlen : 2 ≤ l.token.length := by
-            have := h2.head ⟨l.id, l.token, l.comments⟩ (by
-              simp [view, loc, locStmt, liveLoc, mkV, hlive])
+            have := h2.head ⟨l.id, l.token, l.comments.suffix⟩ (by
+              cases hlt : l.token with
+              | nil => exact absurd hlt hlive
+              | cons a as => simp [view, loc, locStmt, liveLoc, mkV, hlt])
             simpa using this
           rcases hlt : l.token with _ | ⟨a, _ | ⟨a2, as⟩⟩
           · exact absurd hlt hlive
           · rw [hlt] at hlen; simp at hlen
           · have ha : a = verb := by
-              have := hcond.2; rw [hlt] at this; exact headIs_cons this
+              have := hc.2; rw [hlt] at this; exact headIs_cons this
             subst ha
             refine ⟨?_, ?_, ShapeWF.cons ?_ hs.tail⟩
             · rw [view_cons _ xs, view_cons (Expr.line l) xs, List.append_assoc]
-              refine (List.Perm.append_left _ (List.perm_append_comm (l₁ := [_]))).symm.trans' ?_ |>.symm
-              sorry
-            · sorry
-            · sorry
-      · exact hrest _ h
-    | lineBlock b => sorry
+              refine List.Perm.trans ?_ (List.Perm.append_left _ (List.perm_append_comm (l₁ := [vnew new (a :: t :: rest)]) (l₂ := view xs)))
+              rw [← List.append_assoc]
+              refine List.Perm.append_right _ ?_
+              simp [view_block, view, loc, locStmt, liveLoc, mkV, hlt, mkLine, vnew]
+            · rw [treeIds_cons _ xs, treeIds_cons (Expr.line l) xs, List.append_assoc]
+              refine List.Perm.trans ?_ (List.Perm.append_left _ (List.perm_append_comm (l₁ := [new]) (l₂ := treeIds xs)))
+              rw [← List.append_assoc]
+              refine List.Perm.append_right _ ?_
+              simp [treeIds_block, treeIds, loc, locStmt, mkLine]
+            · refine ⟨fun b hb => ?_, fun l' hl' => by simp at hl', fun b hb l' hl' => ?_, fun b hb => ?_⟩
+              · simp only [List.mem_singleton, Expr.lineBlock.injEq] at hb; subst hb; exact ⟨a, by simp⟩
+              · simp only [List.mem_singleton, Expr.lineBlock.injEq] at hb; subst hb
+                simp only [List.mem_cons, List.mem_nil_iff, or_false] at hl'
+                rcases hl' with rfl | rfl <;> rfl
+              · simp only [List.mem_singleton, Expr.lineBlock.injEq] at hb; subst hb; rfl
+      · rw [if_neg hh] at h; exact hrest _ h
+    | lineBlock b =>
+      simp only at h
+      -- shared: the block with the new line inserted, when the block's verb is `verb`
+      have hblk : ∀ l1 l2, b.lines = l1 ++ l2 → (!headIs b.token verb) = false →
+          (view (Expr.lineBlock { b with lines := l1 ++ mkLine new (t :: rest) true :: l2 } :: xs)).Perm
+              (view (Expr.lineBlock b :: xs) ++ [vnew new (verb :: t :: rest)]) ∧
+          (treeIds (Expr.lineBlock { b with lines := l1 ++ mkLine new (t :: rest) true :: l2 } :: xs)).Perm
+              (treeIds (Expr.lineBlock b :: xs) ++ [new]) ∧
+          ShapeWF (Expr.lineBlock { b with lines := l1 ++ mkLine new (t :: rest) true :: l2 } :: xs) := by
+        intro l1 l2 hl hv
+        rcases hs.blockTok b List.mem_cons_self with ⟨w, hw⟩
+        have hwv : b.token = [verb] := by
+          rw [hw] at hv ⊢
+          simp only [Bool.not_eq_false'] at hv
+          rw [headIs_cons hv]
+        rcases block_insert_spec b new verb t rest l1 l2 hl hwv hs.head with ⟨p1, p2, p3⟩
+        refine ⟨?_, ?_, ShapeWF.cons p3 hs.tail⟩
+        · rw [view_cons _ xs, view_cons (Expr.lineBlock b) xs, List.append_assoc]
+          refine List.Perm.trans ?_ (List.Perm.append_left _ (List.perm_append_comm (l₁ := [vnew new (verb :: t :: rest)]) (l₂ := view xs)))
+          rw [← List.append_assoc]
+          exact List.Perm.append_right _ p1
+        · rw [treeIds_cons _ xs, treeIds_cons (Expr.lineBlock b) xs, List.append_assoc]
+          refine List.Perm.trans ?_ (List.Perm.append_left _ (List.perm_append_comm (l₁ := [new]) (l₂ := treeIds xs)))
+          rw [← List.append_assoc]
+          exact List.Perm.append_right _ p2
+      by_cases hh : (hint == Hint.stmt i) = true
+      · rw [if_pos hh] at h
+        by_cases hv : (!headIs b.token verb) = true
+        · rw [if_pos hv] at h
+          simp only [Option.some.injEq] at h; subst h; exact hafter
+        · rw [if_neg hv] at h
+          simp only [Option.some.injEq] at h; subst h
+          simp only [Bool.not_eq_true] at hv
+          have := hblk b.lines [] (by simp) hv
+          simpa using this
+      · rw [if_neg hh] at h
+        cases hint with
+        | line hid =>
+          simp only at h
+          by_cases ha : (b.lines.any fun x => x.id == hid) = true
+          · rw [if_pos ha] at h
+            by_cases hv : (!headIs b.token verb) = true
+            · rw [if_pos hv] at h
+              simp only [Option.some.injEq] at h; subst h; exact hafter
+            · rw [if_neg hv] at h
+              simp only [Bool.not_eq_true] at hv
+              cases hins : insertAfterId hid (mkLine new (t :: rest) true) b.lines with
+              | none => simp only [List.drop_succ_cons, List.drop_zero, hins] at h; exact hrest _ h
+              | some ls =>
+                simp only [List.drop_succ_cons, List.drop_zero, hins, Option.some.injEq] at h; subst h
+                rcases insertAfterId_spec _ _ _ _ hins with ⟨l1, l2, e1, e2⟩
+                rw [e2]
+                exact hblk l1 l2 e1 hv
+          · rw [if_neg ha] at h; exact hrest _ h
+        | none => simp only at h; exact hrest _ h
+        | stmt k => simp only at h; exact hrest _ h
     | commentBlock c => exact hrest _ h
     | lparen c => exact hrest _ h
     | rparen c => exact hrest _ h
+
+theorem append_newLine_spec (stmts : List Expr) (new : Nat) (tokens : List Bytes) (htok : tokens ≠ []) (hs : ShapeWF stmts) :
+    (view (stmts ++ [Expr.line (mkLine new tokens false)])).Perm (view stmts ++ [vnew new tokens]) ∧
+    (treeIds (stmts ++ [Expr.line (mkLine new tokens false)])).Perm (treeIds stmts ++ [new]) ∧
+    ShapeWF (stmts ++ [Expr.line (mkLine new tokens false)]) := by
+  refine ⟨?_, ?_, hs.append (ShapeWF.newLine _ _)⟩
+  · rw [view_append, view_newLine _ _ htok]
+  · rw [treeIds_append, treeIds_newLine]
+
+/-- `addLine` either appends the new line at the end or is a successful hinted walk -/
+theorem addLine_cases (fs : FileSyntax) (hint : Option Nat) (tokens : List Bytes) (new : Nat) :
+    (addLine fs hint tokens new).stmts = fs.stmts ++ [Expr.line (mkLine new tokens false)] ∨
+    ∃ h stmts', addLineWalk h tokens new fs.stmts 0 = some stmts' ∧ (addLine fs hint tokens new).stmts = stmts' := by
+  unfold addLine
+  cases hint with
+  | some id =>
+    dsimp only
+    cases hw : addLineWalk (Hint.line id) tokens new fs.stmts 0 with
+    | none => left; rfl
+    | some s => right; exact ⟨_, s, hw, rfl⟩
+  | none =>
+    dsimp only
+    cases hl : lastStmtWith (tokens.head?.getD []) fs.stmts 0 none with
+    | none => left; rfl
+    | some i =>
+      dsimp only
+      cases hw : addLineWalk (Hint.stmt i) tokens new fs.stmts 0 with
+      | none => left; rfl
+      | some s => right; exact ⟨_, s, hw, rfl⟩
+
+/-- **`FileSyntax.addLine`**: whatever the hint, the tree gains exactly one live line, with id `new` and the requested
+    full tokens; every other line keeps its id, full tokens and end-of-line comments. -/
+theorem addLine_spec (fs : FileSyntax) (hint : Option Nat) (new : Nat) (verb t : Bytes) (rest : List Bytes)
+    (hs : ShapeWF fs.stmts) (h2 : View2 fs.stmts) :
+    (view (addLine fs hint (verb :: t :: rest) new).stmts).Perm (view fs.stmts ++ [vnew new (verb :: t :: rest)]) ∧
+    (treeIds (addLine fs hint (verb :: t :: rest) new).stmts).Perm (treeIds fs.stmts ++ [new]) ∧
+    ShapeWF (addLine fs hint (verb :: t :: rest) new).stmts := by
+  rcases addLine_cases fs hint (verb :: t :: rest) new with h | ⟨h, stmts', hw, he⟩
+  · rw [h]; exact append_newLine_spec fs.stmts new (verb :: t :: rest) (by simp) hs
+  · rw [he]; exact addLineWalk_spec h new verb t rest fs.stmts 0 stmts' hs h2 hw
+
+theorem addLinePtr_spec (fs : FileSyntax) (hint : Option Nat) (new : Nat) (verb t : Bytes) (rest : List Bytes)
+    (hs : ShapeWF fs.stmts) (h2 : View2 fs.stmts) :
+    (view (addLinePtr fs hint (verb :: t :: rest) new).stmts).Perm (view fs.stmts ++ [vnew new (verb :: t :: rest)]) ∧
+    (treeIds (addLinePtr fs hint (verb :: t :: rest) new).stmts).Perm (treeIds fs.stmts ++ [new]) ∧
+    ShapeWF (addLinePtr fs hint (verb :: t :: rest) new).stmts := by
+  have happ := append_newLine_spec fs.stmts new (verb :: t :: rest) (by simp) hs
+  unfold addLinePtr
+  cases hint with
+  | none => exact happ
+  | some id =>
+    dsimp only
+    by_cases hn : (id == nilId) = true
+    · rw [if_pos hn]; exact happ
+    · rw [if_neg hn]; exact addLine_spec fs (some id) new verb t rest hs h2
+
+/-- a tree that gained one line with the fresh id `next` is well formed with the counter advanced -/
+theorem TreeWF.of_added {stmts stmts' : List Expr} {next : Nat} (h : TreeWF stmts next) (hnext : 0 < next)
+    (hids : (treeIds stmts').Perm (treeIds stmts ++ [next])) (hs : ShapeWF stmts') : TreeWF stmts' (next + 1) := by
+  have hnd : (treeIds stmts ++ [next]).Nodup := by
+    apply List.nodup_append.2
+    refine ⟨h.nodup, List.pairwise_singleton _ _, ?_⟩
+    intro a ha b hb
+    rw [List.mem_singleton] at hb
+    have := h.lt a ha
+    omega
+  refine ⟨hids.symm.nodup hnd, ?_, ?_, hs.blockTok, hs.flagTop, hs.flagIn, hs.noBlockSuffix⟩
+  · intro i hi
+    rcases List.mem_append.1 (hids.subset hi) with h1 | h1
+    · exact Nat.lt_succ_of_lt (h.lt i h1)
+    · rw [List.mem_singleton.1 h1]; exact Nat.lt_succ_self _
+  · intro i hi
+    rcases List.mem_append.1 (hids.subset hi) with h1 | h1
+    · exact h.pos i h1
+    · rw [List.mem_singleton.1 h1]; exact Nat.ne_of_gt hnext
+
+theorem TreeWF.mono {stmts : List Expr} {n m : Nat} (h : TreeWF stmts n) (hnm : n ≤ m) : TreeWF stmts m :=
+  ⟨h.nodup, fun i hi => Nat.lt_of_lt_of_le (h.lt i hi) hnm, h.pos, h.blockTok, h.flagTop, h.flagIn, h.noBlockSuffix⟩
+
+/-! ### Cleanup, SortBlocks, removeDups on the tree -/
+
+theorem ShapeWF.block {xs : List Expr} {b : LineBlock} (h : ShapeWF (Expr.lineBlock b :: xs)) (ls : List Line)
+    (hsub : ∀ l ∈ ls, l ∈ b.lines) : ShapeWF [Expr.lineBlock { b with lines := ls }] := by
+  have hb0 : Expr.lineBlock b ∈ Expr.lineBlock b :: xs := List.mem_cons_self
+  refine ⟨fun b' hb' => ?_, fun l' hl' => by simp at hl', fun b' hb' l' hl' => ?_, fun b' hb' => ?_⟩
+  · simp only [List.mem_singleton, Expr.lineBlock.injEq] at hb'; subst hb'; exact h.blockTok b hb0
+  · simp only [List.mem_singleton, Expr.lineBlock.injEq] at hb'; subst hb'; exact h.flagIn b hb0 l' (hsub l' hl')
+  · simp only [List.mem_singleton, Expr.lineBlock.injEq] at hb'; subst hb'; exact h.noBlockSuffix b hb0
+
+/-- **`FileSyntax.Cleanup`** leaves the live lines as they are (ids, full tokens, end-of-line comments, order);
+    only removed lines disappear -/
+theorem cleanupStmts_spec (stmts : List Expr) (hs : ShapeWF stmts) :
+    view (cleanupStmts stmts) = view stmts ∧ (treeIds (cleanupStmts stmts)).Sublist (treeIds stmts) ∧
+    ShapeWF (cleanupStmts stmts) := by
+  induction stmts with
+  | nil => exact ⟨rfl, List.Sublist.refl _, hs⟩
+  | cons x xs ih =>
+    rcases ih hs.tail with ⟨i1, i2, i3⟩
+    cases x with
+    | line l =>
+      unfold cleanupStmts
+      by_cases hl : l.token.isEmpty = true
+      · simp only [hl, if_true]
+        refine ⟨?_, ?_, i3⟩
+        · rw [view_cons _ xs, i1]; simp [view, loc, locStmt, liveLoc, hl]
+        · rw [treeIds_cons _ xs]; exact List.Sublist.trans i2 (List.sublist_append_right _ _)
+      · simp only [hl, Bool.false_eq_true, if_false]
+        refine ⟨?_, ?_, ShapeWF.cons hs.head i3⟩
+        · rw [view_cons _ (cleanupStmts xs), view_cons _ xs, i1]
+        · rw [treeIds_cons _ (cleanupStmts xs), treeIds_cons _ xs]; exact (List.Sublist.refl _).append i2
+    | lineBlock b =>
+      unfold cleanupStmts
+      have hfl : ∀ l ∈ b.lines.filter (fun l => !l.token.isEmpty), l ∈ b.lines := fun l hl => (List.mem_filter.1 hl).1
+      have hviewB : ∀ ls, ls = b.lines.filter (fun l => !l.token.isEmpty) →
+          view [Expr.lineBlock { b with lines := ls }] = view [Expr.lineBlock b] := by
+        intro ls e; rw [view_block, view_block, e, List.filter_filter]; simp
+      have hidsB : (treeIds [Expr.lineBlock { b with lines := b.lines.filter (fun l => !l.token.isEmpty) }]).Sublist
+          (treeIds [Expr.lineBlock b]) := by
+        rw [treeIds_block, treeIds_block]; exact List.filter_sublist.map _
+      have hkeep : view (Expr.lineBlock { b with lines := b.lines.filter (fun l => !l.token.isEmpty) } :: cleanupStmts xs)
+            = view (Expr.lineBlock b :: xs) ∧
+          (treeIds (Expr.lineBlock { b with lines := b.lines.filter (fun l => !l.token.isEmpty) } :: cleanupStmts xs)).Sublist
+            (treeIds (Expr.lineBlock b :: xs)) ∧
+          ShapeWF (Expr.lineBlock { b with lines := b.lines.filter (fun l => !l.token.isEmpty) } :: cleanupStmts xs) := by
+        refine ⟨?_, ?_, ShapeWF.cons (hs.block _ hfl) i3⟩
+        · rw [view_cons _ (cleanupStmts xs), view_cons _ xs, i1, hviewB _ rfl]
+        · rw [treeIds_cons _ (cleanupStmts xs), treeIds_cons _ xs]; exact hidsB.append i2
+      cases hlive : b.lines.filter (fun l => !l.token.isEmpty) with
+      | nil =>
+        simp only [hlive]
+        refine ⟨?_, ?_, i3⟩
+        · rw [view_cons _ xs, i1, view_block, hlive]; rfl
+        · rw [treeIds_cons _ xs]; exact List.Sublist.trans i2 (List.sublist_append_right _ _)
+      | cons l ls =>
+        cases ls with
+        | nil =>
+          simp only [hlive]
+          split
+          · -- collapse the block into a single line, keeping the Line identity
+            have hbs := hs.noBlockSuffix b List.mem_cons_self
+            rcases hs.blockTok b List.mem_cons_self with ⟨w, hw⟩
+            have hllive : l.token ≠ [] := by
+              have : l ∈ b.lines.filter (fun l => !l.token.isEmpty) := by rw [hlive]; exact List.mem_singleton.2 rfl
+              have := (List.mem_filter.1 this).2
+              intro e; simp [e] at this
+            refine ⟨?_, ?_, ShapeWF.cons ?_ i3⟩
+            · rw [view_cons _ (cleanupStmts xs), view_cons _ xs, i1, view_block, hlive]
+              congr 1
+              simp [view, loc, locStmt, liveLoc, mkV, hw, hbs]
+            · rw [treeIds_cons _ (cleanupStmts xs), treeIds_cons _ xs]
+              refine List.Sublist.append ?_ i2
+              have : (treeIds [Expr.lineBlock { b with lines := [l] }]).Sublist (treeIds [Expr.lineBlock b]) := by
+                rw [← hlive]; exact hidsB
+              simpa [treeIds, loc, locStmt] using this
+            · exact ⟨fun b' hb' => by simp at hb', fun l' hl' => by simp at hl'; subst hl'; rfl,
+                fun b' hb' => by simp at hb', fun b' hb' => by simp at hb'⟩
+          · rw [← hlive]; exact hkeep
+        | cons l2 ls2 =>
+          simp only [hlive]
+          rw [← hlive]; exact hkeep
+    | commentBlock c =>
+      unfold cleanupStmts
+      refine ⟨?_, ?_, ShapeWF.cons hs.head i3⟩
+      · rw [view_cons _ (cleanupStmts xs), view_cons _ xs, i1]
+      · rw [treeIds_cons _ (cleanupStmts xs), treeIds_cons _ xs]; exact (List.Sublist.refl _).append i2
+    | lparen c =>
+      unfold cleanupStmts
+      refine ⟨?_, ?_, ShapeWF.cons hs.head i3⟩
+      · rw [view_cons _ (cleanupStmts xs), view_cons _ xs, i1]
+      · rw [treeIds_cons _ (cleanupStmts xs), treeIds_cons _ xs]; exact (List.Sublist.refl _).append i2
+    | rparen c =>
+      unfold cleanupStmts
+      refine ⟨?_, ?_, ShapeWF.cons hs.head i3⟩
+      · rw [view_cons _ (cleanupStmts xs), view_cons _ xs, i1]
+      · rw [treeIds_cons _ (cleanupStmts xs), treeIds_cons _ xs]; exact (List.Sublist.refl _).append i2
+
+theorem stableSort_perm (less : List Bytes → List Bytes → Bool) (l : List Line) : (stableSort less l).Perm l := by
+  rw [stableSort_eq]; exact EditSpec.sortBy_perm _ l
+
+/-- **`SortBlocks`' sort** only permutes the lines inside each block -/
+theorem sortStmts_spec (sem work : Bool) (stmts : List Expr) (hs : ShapeWF stmts) :
+    (view (sortStmts sem work stmts)).Perm (view stmts) ∧ (treeIds (sortStmts sem work stmts)).Perm (treeIds stmts) ∧
+    ShapeWF (sortStmts sem work stmts) := by
+  induction stmts with
+  | nil => exact ⟨List.Perm.refl _, List.Perm.refl _, hs⟩
+  | cons x xs ih =>
+    rcases ih hs.tail with ⟨i1, i2, i3⟩
+    have hcons : sortStmts sem work (x :: xs) = (sortStmts sem work [x]) ++ sortStmts sem work xs := by
+      simp [sortStmts]
+    rw [hcons]
+    cases x with
+    | lineBlock b =>
+      simp only [sortStmts, List.map_cons, List.map_nil, List.singleton_append]
+      generalize (if work = true then lineLess
+        else if (headIs b.token (B "exclude") && sem) = true then lineExcludeLess
+        else if headIs b.token (B "retract") = true then lineRetractLess else lineLess) = less
+      have hp := stableSort_perm less b.lines
+      refine ⟨?_, ?_, ShapeWF.cons (hs.block _ (fun l hl => hp.subset hl)) ?_⟩
+      · rw [view_cons _ (List.map _ xs), view_cons _ xs]
+        refine List.Perm.append ?_ i1
+        rw [view_block, view_block]
+        exact (hp.filter _).map _
+      · rw [treeIds_cons _ (List.map _ xs), treeIds_cons _ xs]
+        refine List.Perm.append ?_ i2
+        rw [treeIds_block, treeIds_block]
+        exact hp.map _
+      · exact i3
+    | line l =>
+      simp only [sortStmts, List.map_cons, List.map_nil, List.singleton_append]
+      refine ⟨?_, ?_, ShapeWF.cons hs.head i3⟩
+      · rw [view_cons _ (List.map _ xs), view_cons _ xs]; exact List.Perm.append_left _ i1
+      · rw [treeIds_cons _ (List.map _ xs), treeIds_cons _ xs]; exact List.Perm.append_left _ i2
+    | commentBlock c =>
+      simp only [sortStmts, List.map_cons, List.map_nil, List.singleton_append]
+      refine ⟨?_, ?_, ShapeWF.cons hs.head i3⟩
+      · rw [view_cons _ (List.map _ xs), view_cons _ xs]; exact List.Perm.append_left _ i1
+      · rw [treeIds_cons _ (List.map _ xs), treeIds_cons _ xs]; exact List.Perm.append_left _ i2
+    | lparen c =>
+      simp only [sortStmts, List.map_cons, List.map_nil, List.singleton_append]
+      refine ⟨?_, ?_, ShapeWF.cons hs.head i3⟩
+      · rw [view_cons _ (List.map _ xs), view_cons _ xs]; exact List.Perm.append_left _ i1
+      · rw [treeIds_cons _ (List.map _ xs), treeIds_cons _ xs]; exact List.Perm.append_left _ i2
+    | rparen c =>
+      simp only [sortStmts, List.map_cons, List.map_nil, List.singleton_append]
+      refine ⟨?_, ?_, ShapeWF.cons hs.head i3⟩
+      · rw [view_cons _ (List.map _ xs), view_cons _ xs]; exact List.Perm.append_left _ i1
+      · rw [treeIds_cons _ (List.map _ xs), treeIds_cons _ xs]; exact List.Perm.append_left _ i2
+
+/-- **`removeDups`' tree half** drops exactly the lines whose id is in the kill list -/
+theorem dropKilled_spec (kill : List Nat) (stmts : List Expr) (hs : ShapeWF stmts) :
+    view (dropKilled kill stmts) = (view stmts).filter (fun v => !kill.contains v.id) ∧
+    (treeIds (dropKilled kill stmts)).Sublist (treeIds stmts) ∧ ShapeWF (dropKilled kill stmts) := by
+  induction stmts with
+  | nil => exact ⟨rfl, List.Sublist.refl _, hs⟩
+  | cons x xs ih =>
+    rcases ih hs.tail with ⟨i1, i2, i3⟩
+    cases x with
+    | line l =>
+      unfold dropKilled
+      by_cases hk : kill.contains l.id = true
+      · simp only [hk, if_true]
+        refine ⟨?_, ?_, i3⟩
+        · rw [view_cons _ xs, List.filter_append, i1]
+          have : (view [Expr.line l]).filter (fun v => !kill.contains v.id) = [] := by
+            apply List.filter_eq_nil_iff.2
+            intro v hv
+            rcases mem_view.1 hv with ⟨p, hp, _, rfl⟩
+            simp only [loc, List.flatMap_cons, List.flatMap_nil, List.append_nil, locStmt, List.mem_singleton] at hp
+            subst hp; simpa [mkV] using hk
+          rw [this]; rfl
+        · rw [treeIds_cons _ xs]; exact List.Sublist.trans i2 (List.sublist_append_right _ _)
+      · simp only [hk, Bool.false_eq_true, if_false]
+        refine ⟨?_, ?_, ShapeWF.cons hs.head i3⟩
+        · rw [view_cons _ (dropKilled kill xs), view_cons _ xs, List.filter_append, i1]
+          congr 1
+          symm
+          apply List.filter_eq_self.2
+          intro v hv
+          rcases mem_view.1 hv with ⟨p, hp, _, rfl⟩
+          simp only [loc, List.flatMap_cons, List.flatMap_nil, List.append_nil, locStmt, List.mem_singleton] at hp
+          subst hp; simp only [Bool.not_eq_true] at hk; simpa [mkV] using hk
+        · rw [treeIds_cons _ (dropKilled kill xs), treeIds_cons _ xs]; exact (List.Sublist.refl _).append i2
+    | lineBlock b =>
+      unfold dropKilled
+      have hviewB : view [Expr.lineBlock { b with lines := b.lines.filter (fun l => !kill.contains l.id) }]
+          = (view [Expr.lineBlock b]).filter (fun v => !kill.contains v.id) := by
+        rw [view_block, view_block, List.filter_map, List.filter_filter, List.filter_filter]
+        congr 1
+        apply List.filter_congr
+        intro l _
+        simp only [Function.comp]
+        exact Bool.and_comm _ _
+      by_cases he : (b.lines.filter (fun l => !kill.contains l.id)).isEmpty = true
+      · simp only [he, if_true]
+        refine ⟨?_, ?_, i3⟩
+        · rw [view_cons _ xs, List.filter_append, i1, ← hviewB, view_block]
+          have : b.lines.filter (fun l => !kill.contains l.id) = [] := List.isEmpty_iff.1 he
+          rw [this]; rfl
+        · rw [treeIds_cons _ xs]; exact List.Sublist.trans i2 (List.sublist_append_right _ _)
+      · simp only [he, Bool.false_eq_true, if_false]
+        refine ⟨?_, ?_, ShapeWF.cons (hs.block _ (fun l hl => (List.mem_filter.1 hl).1)) i3⟩
+        · rw [view_cons _ (dropKilled kill xs), view_cons _ xs, List.filter_append, i1, hviewB]
+        · rw [treeIds_cons _ (dropKilled kill xs), treeIds_cons _ xs]
+          refine List.Sublist.append ?_ i2
+          rw [treeIds_block, treeIds_block]; exact List.filter_sublist.map _
+    | commentBlock c =>
+      unfold dropKilled
+      refine ⟨?_, ?_, ShapeWF.cons hs.head i3⟩
+      · rw [view_cons _ (dropKilled kill xs), view_cons _ xs, List.filter_append, i1]; rfl
+      · rw [treeIds_cons _ (dropKilled kill xs), treeIds_cons _ xs]; exact (List.Sublist.refl _).append i2
+    | lparen c =>
+      unfold dropKilled
+      refine ⟨?_, ?_, ShapeWF.cons hs.head i3⟩
+      · rw [view_cons _ (dropKilled kill xs), view_cons _ xs, List.filter_append, i1]; rfl
+      · rw [treeIds_cons _ (dropKilled kill xs), treeIds_cons _ xs]; exact (List.Sublist.refl _).append i2
+    | rparen c =>
+      unfold dropKilled
+      refine ⟨?_, ?_, ShapeWF.cons hs.head i3⟩
+      · rw [view_cons _ (dropKilled kill xs), view_cons _ xs, List.filter_append, i1]; rfl
+      · rw [treeIds_cons _ (dropKilled kill xs), treeIds_cons _ xs]; exact (List.Sublist.refl _).append i2
+
+theorem TreeWF.of_sublist {stmts stmts' : List Expr} {next : Nat} (h : TreeWF stmts next)
+    (hids : (treeIds stmts').Sublist (treeIds stmts)) (hs : ShapeWF stmts') : TreeWF stmts' next :=
+  ⟨List.Nodup.sublist hids h.nodup, fun i hi => h.lt i (hids.subset hi), fun i hi => h.pos i (hids.subset hi), hs.blockTok, hs.flagTop, hs.flagIn, hs.noBlockSuffix⟩
+
+theorem TreeWF.of_perm {stmts stmts' : List Expr} {next : Nat} (h : TreeWF stmts next)
+    (hids : (treeIds stmts').Perm (treeIds stmts)) (hs : ShapeWF stmts') : TreeWF stmts' next :=
+  ⟨hids.symm.nodup h.nodup, fun i hi => h.lt i (hids.subset hi), fun i hi => h.pos i (hids.subset hi), hs.blockTok, hs.flagTop, hs.flagIn, hs.noBlockSuffix⟩
 
 end ModVerif.Modfile.Edit
